@@ -37,7 +37,7 @@ var authItems = []string{
 	"TS0-honest-server", "TS1-untrusted-root", "TS3-wrong-name", "TS10-rsa-key-not-held", "TS5-ecdhe-params-signed-by-other-key", "TS6-ecdhe-params-signature-over-other-randoms", "TS9-ecdhe-params-signature-garbage", "TS4-ecdsa-cert-for-rsa-suite",
 	"TC0-honest-client", "TC1-no-cert", "TC2-untrusted-ca", "TC3-cv-other-key", "TC4-cv-other-transcript", "TC5-cv-omitted", "TC5-cv-omitted-enc-only-cert", "TC3-cv-other-key-enc-only-cert", "TC12-certificate-message-omitted", "TC8-ifgiven-no-cert",
 	"T0-honest", "T1-wrong-name", "T2-untrusted-root", "T3-client-cert-untrusted", "T4-no-client-cert", "T5-client-cert-if-given-untrusted", "T6-ip-literal-name",
-	"M-flip-byte", "M-replace-from-session1", "M-drop", "M-duplicate", "M-swap", "M-suite-strip", "M-serverhello-suite", "M-cert-substitute", "M7-refragment(legal)", "M7-warning-alert", "M-extend-body", "M-shorten-body", "clock-skew",
+	"M-flip-byte", "M-replace-from-session1", "M-drop", "M-duplicate", "M-swap", "M-suite-strip", "M-serverhello-suite", "M-cert-substitute", "M7-refragment(legal)", "M7-warning-alert", "M-extend-body", "M-shorten-body", "M-hello-version", "M-hello-extension-strip", "M-hello-session-id", "clock-skew",
 }
 var authReach = []string{"victim-rejected", "allowed-completed", "honest-completed", "gm-cbc", "gm-gcm", "policy-request", "policy-require-any", "policy-verify-if-given", "policy-require-and-verify", "mitm-both-failed", "mitm-one-failed", "mitm-noop-completed", "session1-harvested", "rewrite-clienthello", "rewrite-serverhello", "rewrite-certificate", "rewrite-skx", "rewrite-ckx", "rewrite-other", "views-compared", "mitm-tls-path", "rewrite-new-session-ticket", "mitm-abbreviated-handshake"}
 
@@ -844,6 +844,60 @@ func (h *hsRelay) rewrite(raw []byte, held *[]byte) [][]byte {
 	case "M-swap":
 		*held = raw // "changed" only once another message has overtaken it
 		return nil
+	case "M-hello-version", "M-hello-extension-strip", "M-hello-session-id":
+		// downgrade attempts on either hello: a lower (or other) version number, one
+		// extension (or all of them) removed, the session id changed
+		if raw[0] == reftls.HsClientHello {
+			ch, err := reftls.ParseClientHello(body)
+			if err != nil {
+				return [][]byte{raw}
+			}
+			switch rw.Kind {
+			case "M-hello-version":
+				ch.Vers = []uint16{0x0301, 0x0302, 0x0303, 0x0101, 0x0300}[rw.Val%5]
+			case "M-hello-extension-strip":
+				if len(ch.Exts) == 0 {
+					return [][]byte{raw}
+				}
+				if rw.Val%3 == 0 {
+					ch.Exts = nil
+				} else {
+					k := rw.Off % len(ch.Exts)
+					ch.Exts = append(append([]reftls.Ext(nil), ch.Exts[:k]...), ch.Exts[k+1:]...)
+				}
+			default:
+				ch.SessionID = []byte{byte(rw.Val), byte(rw.Off), 7}[:rw.Val%4]
+			}
+			m := reftls.Handshake(reftls.HsClientHello, ch.Marshal())
+			h.changed = !bytes.Equal(m, raw)
+			return [][]byte{m}
+		}
+		if raw[0] == reftls.HsServerHello {
+			sh, err := reftls.ParseServerHello(body)
+			if err != nil {
+				return [][]byte{raw}
+			}
+			switch rw.Kind {
+			case "M-hello-version":
+				sh.Vers = []uint16{0x0301, 0x0302, 0x0303, 0x0101, 0x0300}[rw.Val%5]
+			case "M-hello-extension-strip":
+				if len(sh.Exts) == 0 {
+					return [][]byte{raw}
+				}
+				if rw.Val%3 == 0 {
+					sh.Exts = nil
+				} else {
+					k := rw.Off % len(sh.Exts)
+					sh.Exts = append(append([]reftls.Ext(nil), sh.Exts[:k]...), sh.Exts[k+1:]...)
+				}
+			default:
+				sh.SessionID = []byte{byte(rw.Val), byte(rw.Off), 7}[:rw.Val%4]
+			}
+			m := reftls.Handshake(reftls.HsServerHello, sh.Marshal())
+			h.changed = !bytes.Equal(m, raw)
+			return [][]byte{m}
+		}
+		return [][]byte{raw}
 	case "M-suite-strip":
 		if raw[0] != reftls.HsClientHello {
 			return [][]byte{raw}
@@ -915,8 +969,8 @@ func runAuthMITM(c *simkit.Choice, r *simkit.Rec) {
 	if tlsMode {
 		suiteList = [][]uint16{{0xc02f, 0x009c}, {0x009c, 0xc02f}, {0x002f, 0x009c}, {0xc02f}}[c.Choose(4, simkit.LScen)]
 	}
-	kinds := []string{"M-flip-byte", "M-replace-from-session1", "M-drop", "M-duplicate", "M-swap", "M-suite-strip", "M-serverhello-suite", "M-cert-substitute", "M7-refragment(legal)", "M7-warning-alert", "M-extend-body", "M-shorten-body"}
-	rw := &mitmRewrite{Kind: kinds[c.Weighted([]int{5, 4, 2, 2, 2, 2, 2, 3, 2, 1, 4, 2}, simkit.LFault)]}
+	kinds := []string{"M-flip-byte", "M-replace-from-session1", "M-drop", "M-duplicate", "M-swap", "M-suite-strip", "M-serverhello-suite", "M-cert-substitute", "M7-refragment(legal)", "M7-warning-alert", "M-extend-body", "M-shorten-body", "M-hello-version", "M-hello-extension-strip", "M-hello-session-id"}
+	rw := &mitmRewrite{Kind: kinds[c.Weighted([]int{5, 4, 2, 2, 2, 2, 2, 3, 2, 1, 4, 2, 3, 3, 2}, simkit.LFault)]}
 	rw.Dir = c.Choose(2, simkit.LFault)
 	maxIdx := 1 // c2s before CCS: CH, [Cert], CKX, [CV]
 	if rw.Dir == 0 {
@@ -952,6 +1006,8 @@ func runAuthMITM(c *simkit.Choice, r *simkit.Rec) {
 		rw.Index = c.Choose(maxIdx, simkit.LFault)
 	}
 	switch rw.Kind {
+	case "M-hello-version", "M-hello-extension-strip", "M-hello-session-id":
+		rw.Index = 0 // the hello of the drawn direction
 	case "M-suite-strip":
 		rw.Dir, rw.Index = 0, 0
 	case "M-serverhello-suite":
